@@ -26,6 +26,50 @@ func predOf(s Site) string {
 	return ""
 }
 
+var blockIDConstOf = map[string]string{"IsPreConfirmed": "preConfirmed", "IsPending": "pending", "IsLatest": "latest", "IsHash": "hash", "IsNumber": "number", "IsL1Accepted": "l1Accepted"}
+
+// kindAlt / kindNegAlt: the two spellings in which a resolver establishes (excludes) an identifier kind — the predicate
+// method `id.IsX()` and the comparison `id.Type() == x` of a `switch id.Type()`.
+func kindAlt(pn string) [][]string {
+	return [][]string{{"." + pn + "()"}, {".Type() == ", "." + blockIDConstOf[pn] + ")"}}
+}
+
+func kindNegAlt(pn string) [][]string {
+	return [][]string{{"^!", "." + pn + "()"}, {"^!", ".Type() == ", "." + blockIDConstOf[pn] + ")"}}
+}
+
+// typeSwitchKinds: the identifier kinds a function distinguishes by comparing `id.Type()` with the kind constants.
+func typeSwitchKinds(g *ssa.Function) map[string]bool {
+	out := map[string]bool{}
+	allInstrs(g, func(in ssa.Instruction) {
+		bo, ok := in.(*ssa.BinOp)
+		if !ok {
+			return
+		}
+		for _, pair := range [][2]ssa.Value{{bo.X, bo.Y}, {bo.Y, bo.X}} {
+			k, isConst := pair[1].(*ssa.Const)
+			call, isCall := pair[0].(*ssa.Call)
+			if !isConst || !isCall {
+				continue
+			}
+			cal := call.Call.StaticCallee()
+			if cal == nil || cal.Name() != "Type" || cal.Signature.Recv() == nil {
+				continue
+			}
+			if rn := recvName(cal.Signature.Recv().Type()); rn != "BlockID" && rn != "SubscriptionBlockID" {
+				continue
+			}
+			cn := constName(k)
+			for pn, c := range blockIDConstOf {
+				if cn == c || strings.HasSuffix(cn, "."+c) {
+					out[pn] = true
+				}
+			}
+		}
+	})
+	return out
+}
+
 func readerFamily(m string) string {
 	switch {
 	case m == "Head" || m == "HeadsHeader" || m == "HeadState":
@@ -59,6 +103,10 @@ func init() {
 							kinds[pn] = true
 						}
 					}
+					for pn := range typeSwitchKinds(g) {
+						preds[pn] = true
+						kinds[pn] = true
+					}
 				}
 				if len(preds) < 2 {
 					continue
@@ -84,20 +132,26 @@ func init() {
 						var miss string
 						switch fam {
 						case "latest":
-							ok, miss = everyDisjunctHas(d, []string{".IsLatest()"}, []string{" == nil)"})
+							alts := append(kindAlt("IsLatest"), []string{" == nil)"})
+							if ver == "rpc/v8" {
+								// v8's `pending` is emulated as an empty block on top of the head (Handler.Pending →
+								// MakeEmptyPendingForParent): its state and parent data are the head's
+								alts = append(alts, kindAlt("IsPending")...)
+							}
+							ok, miss = everyDisjunctHas(d, alts...)
 						case "hash":
-							ok, miss = everyDisjunctHas(d, []string{".IsHash()"})
+							ok, miss = everyDisjunctHas(d, kindAlt("IsHash")...)
 						case "number":
 							at := termF(s.Args()[len(s.Args())-1])
 							switch {
 							case strings.Contains(at, "Height()"):
-								ok, miss = everyDisjunctHas(d, []string{".IsLatest()"})
+								ok, miss = everyDisjunctHas(d, kindAlt("IsLatest")...)
 							case strings.Contains(at, "BlockNumberByHash("):
-								ok, miss = everyDisjunctHas(d, []string{".IsHash()"})
+								ok, miss = everyDisjunctHas(d, kindAlt("IsHash")...)
 							case strings.Contains(at, "l1AcceptedBlockNumber()") || strings.Contains(at, "L1Head()"):
-								ok, miss = everyDisjunctHas(d, []string{".IsL1Accepted()"})
+								ok, miss = everyDisjunctHas(d, kindAlt("IsL1Accepted")...)
 							default:
-								ok, miss = everyDisjunctHas(d, []string{".IsNumber()"})
+								ok, miss = everyDisjunctHas(d, kindAlt("IsNumber")...)
 								if !ok {
 									miss += " (number " + at + ")"
 								}
@@ -109,7 +163,7 @@ func init() {
 									if pn == "IsNumber" {
 										continue
 									}
-									if o, _ := everyDisjunctHas(d, []string{"^!", "." + pn + "()"}); !o {
+									if o, _ := everyDisjunctHas(d, kindNegAlt(pn)...); !o {
 										ok = false
 									}
 								}
@@ -139,6 +193,9 @@ func init() {
 						if s.Callee != nil && s.Callee.Name() == "Number" && s.Callee.Signature.Recv() != nil && recvName(s.Callee.Signature.Recv().Type()) == "BlockID" {
 							usesNumber = true
 						}
+					}
+					for pn := range typeSwitchKinds(g) {
+						preds[pn] = true
 					}
 				}
 				if len(preds) < 3 {
